@@ -48,7 +48,7 @@ func emptyAlt() SAlt         { return SAlt{Empty: true} }
 func errAlt(syms ...Sym) SAlt { return SAlt{Err: true, Body: syms} }
 
 // Families is the list of template families GenSyntax knows.
-var Families = []string{"expr", "list", "stmts", "brackets", "random", "lr1notlalr", "nullable", "long", "random", "random", "nulllist", "nulllist", "nulltails", "lr2", "wide", "firstchain"}
+var Families = []string{"expr", "list", "stmts", "brackets", "random", "lr1notlalr", "nullable", "long", "random", "random", "nulllist", "nulllist", "nulltails", "lr2", "wide", "firstchain", "errorder"}
 
 // BoundaryFamilies are shapes near the LR(1) boundary (used on top of Families by C04).
 var BoundaryFamilies = []string{"lr1notlalr", "cyclic", "rr1la", "nullconflict", "nullable", "random", "expr", "nulltails", "nulllist", "lr2"}
@@ -84,6 +84,8 @@ func GenSyntax(r *rand.Rand, o SynGenOpts) *Grammar {
 		g = s.lr2()
 	case "firstchain":
 		g = s.firstChain()
+	case "errorder":
+		g = s.errOrder()
 	case "wide":
 		g = s.wide()
 	case "cyclic":
@@ -329,6 +331,28 @@ func (s *synGen) firstChain() *Grammar {
 			d.Alts = append(d.Alts, alt(nt(name(depth-1)), t[4]))
 		}
 		g.NTs = append(g.NTs, d)
+	}
+	return g
+}
+
+// errOrder: error alternatives followed by a nonterminal, with the nonterminals defined in an
+// order different from the order of their first mention (symbol numbering follows first
+// mention, tables follow definition order).
+func (s *synGen) errOrder() *Grammar {
+	s.pickTerminals(4)
+	t := s.terms
+	stmts := &NTDef{Head: "Stmts", Alts: []SAlt{alt(nt("Stmt")), alt(nt("Stmts"), nt("Stmt")), errAlt(nt("Sep"))}}
+	sep := &NTDef{Head: "Sep", Alts: []SAlt{alt(t[0])}}
+	stmt := &NTDef{Head: "Stmt", Alts: []SAlt{alt(t[1], nt("Sep"))}}
+	if s.r.Intn(2) == 0 {
+		stmt.Alts = append(stmt.Alts, alt(t[2], t[1], nt("Sep")))
+	}
+	if s.r.Intn(2) == 0 {
+		stmt.Alts = append(stmt.Alts, errAlt(t[3]))
+	}
+	g := &Grammar{NTs: []*NTDef{stmts, sep, stmt}}
+	if s.r.Intn(3) == 0 {
+		g.NTs = []*NTDef{stmts, stmt, sep}
 	}
 	return g
 }
